@@ -429,6 +429,16 @@ pub async fn check_message(s: &mut Session, bytes: &[u8], prefer_text: bool, obs
 	let http = s.fix.http_post_e(bytes).await;
 	settle().await;
 	let http_log = s.fix.ctx.log_since(log0);
+	// ---- the same POST to a path that a `ProxyGetRequestLayer` in front maps (for GET requests) to some method: the
+	// path of a POST is of no concern, the answer is the same
+	if s.fix.cfg.via_set_http_middleware {
+		let via = s.fix.http_post_via_proxy("/health", bytes).await;
+		settle().await;
+		obs.class("http-post-to-a-proxied-path");
+		obs.check(via.status == http.status && via.body == http.body, "c01/post-to-proxied-path-answered-differently", || {
+			format!("{} => {} {:?} when POSTed to /health behind ProxyGetRequestLayer, {} {:?} otherwise", shown(), via.status, String::from_utf8_lossy(&via.body), http.status, String::from_utf8_lossy(&http.body))
+		});
+	}
 	// ---- WS
 	let log1 = s.fix.ctx.log_len();
 	let sent = match s.frag {
@@ -843,6 +853,7 @@ pub fn check(ctx: &mut Ctx) {
 		"in-memory transport: tower service called directly for HTTP; hyper+soketto over tokio duplex for WS".into(),
 	];
 	ctx.run_sub(&Messages);
+	ctx.run_sub(&HttpKeepAlive);
 	// token-level enumeration (exhaustive up to the tier's length)
 	let mlen = ctx.tier.pick(4, 5);
 	let mseqs = all_member_seqs(mlen);
@@ -861,5 +872,108 @@ pub fn check(ctx: &mut Ctx) {
 }
 
 pub fn replay(file: &serde_json::Value) -> Option<i32> {
-	replay_with(&Messages, file, "C01").or_else(|| replay_with(&TokenEnum, file, "C01")).or_else(|| replay_with(&MemberEnum, file, "C01"))
+	replay_with(&Messages, file, "C01").or_else(|| replay_with(&HttpKeepAlive, file, "C01")).or_else(|| replay_with(&TokenEnum, file, "C01")).or_else(|| replay_with(&MemberEnum, file, "C01"))
+}
+
+// ---------------------------------------------------------------------------------------------
+// several messages on one persistent HTTP/1.1 connection
+// ---------------------------------------------------------------------------------------------
+
+#[derive(Clone, Debug, Serialize, Deserialize)]
+pub struct KeepAliveCase {
+	pub msgs: Vec<Msg>,
+}
+
+pub struct HttpKeepAlive;
+
+/// one HTTP/1.1 response out of `buf` (status, body), if it is complete; the rest stays in `buf`
+fn take_http_response(buf: &mut Vec<u8>) -> Option<(u16, Vec<u8>)> {
+	let head_end = buf.windows(4).position(|w| w == b"\r\n\r\n")?;
+	let head = String::from_utf8_lossy(&buf[..head_end]).to_string();
+	let status: u16 = head.split_whitespace().nth(1)?.parse().ok()?;
+	let len: usize = head.lines().find_map(|l| l.to_ascii_lowercase().strip_prefix("content-length:").map(|v| v.trim().parse::<usize>().ok())).flatten().unwrap_or(0);
+	if buf.len() < head_end + 4 + len {
+		return None;
+	}
+	let body = buf[head_end + 4..head_end + 4 + len].to_vec();
+	buf.drain(..head_end + 4 + len);
+	Some((status, body))
+}
+
+impl SubCheck for HttpKeepAlive {
+	type Case = KeepAliveCase;
+	fn name(&self) -> &'static str {
+		"http-keep-alive"
+	}
+	fn cases(&self, tier: Tier) -> u32 {
+		tier.pick(20_000, 400_000)
+	}
+	fn strategy(&self, tier: Tier) -> BoxedStrategy<KeepAliveCase> {
+		proptest::collection::vec(arb_msg(tier.pick(2, 3)), 1..5).prop_map(|msgs| KeepAliveCase { msgs }).boxed()
+	}
+	fn run(&self, case: &KeepAliveCase, obs: &mut Obs) {
+		use futures_util::FutureExt;
+		use tokio::io::{AsyncReadExt, AsyncWriteExt};
+		let rt = rt();
+		rt.block_on(async {
+			let fix = Fixture::new(Cfg::default());
+			let (mut io, _task) = fix.raw_conn(1 << 20);
+			let mut inbox: Vec<u8> = vec![];
+			let exchange = |body: Vec<u8>| {
+				let mut req = format!("POST / HTTP/1.1\r\nHost: localhost\r\nContent-Type: application/json\r\nContent-Length: {}\r\n\r\n", body.len()).into_bytes();
+				req.extend_from_slice(&body);
+				req
+			};
+			let mut closed_after: Option<usize> = None;
+			let mut any_rejected = false;
+			for (k, m) in case.msgs.iter().enumerate() {
+				let body = render_msg(m);
+				// what the service answers to these bytes on a connection of their own
+				let alone = fix.http_post_e(&body).await;
+				settle().await;
+				let wrote = io.write_all(&exchange(body.clone())).await.is_ok();
+				settle().await;
+				let mut chunk = vec![0u8; 1 << 16];
+				while let Some(Ok(n)) = io.read(&mut chunk).now_or_never() {
+					if n == 0 {
+						break;
+					}
+					inbox.extend_from_slice(&chunk[..n]);
+				}
+				match take_http_response(&mut inbox) {
+					Some((status, got)) => {
+						any_rejected |= status != 200;
+						obs.check(status == alone.status && got == alone.body, "c01/http-answer-depends-on-the-connection", || {
+							format!("message #{k} {:?} on the persistent connection => {status} {:?}, alone => {} {:?}", String::from_utf8_lossy(&body), String::from_utf8_lossy(&got), alone.status, String::from_utf8_lossy(&alone.body))
+						});
+					}
+					None => {
+						closed_after = Some(k);
+						obs.fail("c01/connection-not-serving-after-message", format!("message #{k} {:?} on a persistent HTTP/1.1 connection (wrote={wrote}) got no complete response; earlier messages: {:?}", String::from_utf8_lossy(&body), case.msgs.iter().take(k).map(|m| String::from_utf8_lossy(&render_msg(m)).to_string()).collect::<Vec<_>>()));
+						break;
+					}
+				}
+			}
+			if closed_after.is_none() {
+				// the connection still serves
+				let sentinel = br#"{"jsonrpc":"2.0","id":"sentinel","method":"echo_sync","params":[7]}"#.to_vec();
+				let _ = io.write_all(&exchange(sentinel)).await;
+				settle().await;
+				let mut chunk = vec![0u8; 1 << 16];
+				while let Some(Ok(n)) = io.read(&mut chunk).now_or_never() {
+					if n == 0 {
+						break;
+					}
+					inbox.extend_from_slice(&chunk[..n]);
+				}
+				let ok = matches!(take_http_response(&mut inbox), Some((200, b)) if serde_json::from_slice::<Value>(&b).ok() == Some(json!({"jsonrpc":"2.0","id":"sentinel","result":[7]})));
+				obs.check(ok, "c01/connection-not-serving-after-message", || format!("the sentinel call after {:?} on one persistent HTTP/1.1 connection was not answered", case.msgs.iter().map(|m| String::from_utf8_lossy(&render_msg(m)).to_string()).collect::<Vec<_>>()));
+			}
+			if any_rejected {
+				obs.nontrivial();
+				obs.class("keep-alive:after-a-rejected-message");
+			}
+			fix.ctx.gates.release_all();
+		});
+	}
 }
